@@ -62,8 +62,15 @@ let id_num (s : string) : Model.z =
                                    (List.init (String.length s) (String.get s))) in
   if digits = "" then zc (-1) else z_to_coq (ZZ.of_string digits)
 
+let sample_kv (body : string) : (string * string) list =
+  List.filter_map (fun kvs ->
+    match String.index_opt kvs '=' with
+    | Some i -> Some (String.sub kvs 0 i, String.sub kvs (i + 1) (String.length kvs - i - 1))
+    | None -> None) (String.split_on_char ',' body)
+
 let abstract (max : Model.z) (evs : string list) : aev list =
   let infl = C02.inflated_of evs in
+  let fed : (string * frame_info) list ref = ref [] in     (* nonce (decimal) -> request frame *)
   List.filter_map (fun e ->
     match String.split_on_char '/' e with
     | [ "callstart"; c ] -> Some (AStart (id_num c))
@@ -73,14 +80,27 @@ let abstract (max : Model.z) (evs : string list) : aev list =
     | [ "writefail"; h ] -> Some (AWriteFail (frame_info_of max infl (bytes_of_hex h)))
     | "ret" :: c :: cls :: _ -> Some (ARet (id_num c, rclass_of cls))
     | [ "cancel"; c ] -> Some (ACtx (id_num c))
+    | [ "feed"; h ] ->
+        let fi = frame_info_of max infl (bytes_of_hex (if h = "-" then "" else h)) in
+        fed := (ZZ.to_string (z_of_coq fi.fi_nonce), fi) :: !fed;
+        Some (AFeed (fi, true))
     | "hstart" :: h :: _ :: a :: _ ->
         let nn = (try nonce_of (parse a) with _ -> zc (-1)) in
-        Some (AHStart (id_num h, { fi_kind = KBad; fi_seq = zc (-1); fi_nonce = nn; fi_ok = true }))
+        let fi = (match List.assoc_opt (ZZ.to_string (z_of_coq nn)) !fed with
+                  | Some fi -> fi
+                  | None -> { fi_kind = KBad; fi_seq = zc (-1); fi_nonce = nn; fi_ok = true }) in
+        Some (AHStart (id_num h, fi))
     | [ "hctx"; h ] -> Some (AHCtx (id_num h))
     | [ "hret"; h ] -> Some (AHRet (id_num h))
     | [ "close-begin" ] -> Some ACloseBegin
     | [ "close-end" ] -> Some ACloseEnd
     | [ "connclose" ] -> Some AConnClose
+    | [ "readerr"; _ ] -> Some AReadErr
+    | "sample" :: _ :: rest ->
+        let k = sample_kv (String.concat "/" rest) in
+        let g x = try List.assoc x k with Not_found -> "" in
+        let zi x = z_to_coq (ZZ.of_string (if g x = "" then "0" else g x)) in
+        Some (ASample (zi "pending", zi "goroutines", g "done" = "1", g "connected" = "1", g "err" = "nil"))
     | _ -> None) evs
 
 let timeouts (evs : string list) : string list =
